@@ -554,7 +554,7 @@ def check_partial(case: t.Any, ctx: Ctx) -> None:
         want = at_end
         for n in cmp_fields:
             (u, v) = (getattr(a, n), getattr(b, n))
-            if u == v:
+            if u is v or u == v:       # (as Python's own sequences compare their items: identical items are equal, NaN included)
                 continue
             want = bool(op(u, v))
             break
@@ -563,6 +563,14 @@ def check_partial(case: t.Any, ctx: Ctx) -> None:
         if k != 'ok' or got is not want:
             ctx.fail('ordering', 'lexicographic:partially-ordered-fields', f"compare-fields {cmp_fields}: {a!r} {sym} {b!r} is {got!r}, the lexicographic order "
                      f"of the compare-fields gives {want}")
+            return
+    # an instance is equal to itself and to its copies, whatever its fields hold (a NaN is not equal to itself, but it is the same value)
+    for (what, f) in (('itself', lambda o: o), ('copy', copy.copy), ('deepcopy', copy.deepcopy), ('__replace__()', lambda o: o.__replace__())):
+        ctx.evaluated()
+        (k, c) = outcome(lambda: f(a))
+        (k2, eq) = outcome(lambda: (c == a, a == c, c <= a, c >= a, c < a, c > a)) if k == 'ok' else ('-', None)
+        if k != 'ok' or k2 != 'ok' or eq != (True, True, True, True, False, False):
+            ctx.fail('copy', f"equal-to-{what}:special-values", f"{a!r}: compared with {what} ({short(c, 80)}): (==, ==, <=, >=, <, >) = {eq!r}; expected (True, True, True, True, False, False)")
             return
 
 
